@@ -365,6 +365,20 @@ func (e *Env) NewConn() *memnet.Conn {
 
 // Stop closes the server and waits for Serve to return (guarded).
 func (e *Env) Stop() (serveErr error, ok bool) {
+	// end every client connection so that the per-connection goroutines (and
+	// their read buffers, 16 MiB each at the default limit) are released
+	e.mu.Lock()
+	for _, c := range e.conns {
+		c.CloseWrite()
+	}
+	for _, g := range e.gates {
+		select {
+		case <-g:
+		default:
+			close(g)
+		}
+	}
+	e.mu.Unlock()
 	done := make(chan struct{})
 	go func() { _ = e.Srv.Close(); close(done) }()
 	select {
